@@ -102,6 +102,14 @@ def run(tier):
     n = 3 if tier == "quick" else 4
     g = gen_init.Grammar()
     items = [(k, b) for k, b in g.programs(n) if gen_init.uses_var(b)]
+    # one node deeper over the store/load core of the alphabet (both variables stored on different arms of a
+    # conditional and loaded after the join need 4 nodes)
+    fg = gen_init.Grammar(["Sa", "La", "Sb", "Lb"], ["cin"])
+    seen = set(b for _k, b in items)
+    for k, b in fg.programs(n + 1):
+        if k == n + 1 and gen_init.uses_var(b) and b not in seen:
+            items.append((k, b))
+    rep.bounds["core_alphabet_max_nodes"] = n + 1
     rep.bounds["max_nodes"] = n
     rep.bounds["recipes"] = len(items)
     rep.bounds["configs"] = [repr(c) for c in _CFGS]
